@@ -92,6 +92,13 @@ def rnd_int_fact(k, mode):
                       rnd(z3.ToReal(k), mode) == k)
 
 
+def rnd_integral_fact(x, mode):
+    """ground instance of lemma round_rel/integers-fixed at k := ToInt(x): an
+    integral real is rounded to itself in every mode"""
+    return z3.Implies(z3.And(mode >= 0, mode < 8, x == z3.ToReal(z3.ToInt(x))),
+                      z3.ToReal(rnd(x, mode)) == x)
+
+
 # powers of ten -----------------------------------------------------------
 p10 = z3.Function("p10", z3.IntSort(), z3.RealSort())
 
@@ -181,7 +188,15 @@ denom = z3.Function("denom", z3.RealSort(), z3.IntSort())
 
 
 def num_den_fact(x):
-    return z3.And(denom(x) > 0, z3.ToReal(numer(x)) == x * z3.ToReal(denom(x)))
+    """numer(x)/denom(x) == x in the multiplicative and in the quotient form,
+    and: the numerator is divisible by the denominator exactly when x is
+    integral (lemma field/divisible-quotient-integral)"""
+    n, d = numer(x), denom(x)
+    return z3.And(d > 0, z3.ToReal(n) == x * z3.ToReal(d),
+                  z3.ToReal(n) / z3.ToReal(d) == x,
+                  n == d * (n / d) + n % d,       # SMT-LIB definition of div / mod
+                  z3.Implies(n % d == 0, x == z3.ToReal(n / d)),
+                  (n % d == 0) == is_int(x))
 
 
 def num_den(x, path) -> Tuple[Any, Any]:
